@@ -362,14 +362,16 @@ class PauliStringPhasorGate(raw_types.Gate):
         return self.dense_pauli_string.on(*qubits).to_z_basis_ops()
 
     def _decompose_(self, qubits: Sequence[cirq.Qid]) -> Iterator[cirq.OP_TREE]:
-        if len(self.dense_pauli_string) <= 0:
+        # Qubits on which the string is the identity take no part in the parity.
+        active = [q for q, p in zip(qubits, self.dense_pauli_string.pauli_mask) if p]
+        if not active:
             # The identity string only has the +1 eigenspace: a global phase.
             if self.exponent_pos:
                 yield global_phase_op.global_phase_operation(1j ** (2 * self.exponent_pos))
             return
-        any_qubit = qubits[0]
+        any_qubit = active[0]
         to_z_ops = op_tree.freeze_op_tree(self._to_z_basis_ops(qubits))
-        xor_decomp = tuple(xor_nonlocal_decompose(qubits, any_qubit))
+        xor_decomp = tuple(xor_nonlocal_decompose(active, any_qubit))
         yield to_z_ops
         yield xor_decomp
 
